@@ -179,8 +179,21 @@ def check(run: Run) -> None:
         R.share(run, "C17.f", c15, ["C15.c"])
         R.share(run, "C17.f", c09, ["C09.d"])
 
+    with run.obligation("C17.g", "K1", "the run loop ends a real-time run after the current cycle on a stop request: the flag is tested again AFTER the (blocking) advance, before "
+                        "another cycle is evaluated - a stop that arrives while the loop is waiting is what wakes it and must not cost one more cycle; end of run at "
+                        "END / MAX_DT; the immediate-cycle counter (shared with C02.d: the run_storage decision table)"):
+        from . import c02
+        R.share(run, "C17.g", c02, ["C02.d"])
+
+    with run.obligation("C17.h", "K1", "a wake-up pending on a push-source node is not dropped by a push-triggered cycle: the push phase evaluates EVERY push-source node when a push "
+                        "is pending, and folds the future slot of each one it did not run for into next_scheduled_time unconditionally - otherwise the executor sleeps to "
+                        "end_time past the pending timer (shared with C02.c: the push-loop decision table of graph evaluate_impl)"):
+        from . import c02 as c02_
+        R.share(run, "C17.h", c02_, ["C02.c"])
+
 
 VARIANTS = [
+    {"id": "g-seed-C17-6-no-stop-test-after-advance", "expect": "C17.g", "edits": [{"file": EXEC, "find": "                if (state.stop_requested.load(std::memory_order_acquire) ||\n                    evaluation_time == MAX_DT ||\n                    evaluation_time >= state.end_time)\n                {\n                    break;\n                }", "replace": "                if (evaluation_time == MAX_DT || evaluation_time >= state.end_time) { break; }"}]},
     {"id": "a-no-floor", "expect": "C17.a", "edits": [{"file": EXEC, "find": "const DateTime wall_or_next_cycle = std::max(wall_now, next_cycle);", "replace": "const DateTime wall_or_next_cycle = wall_now;"}]},
     {"id": "a-no-ceiling", "expect": "C17.a", "edits": [{"file": EXEC, "find": "const DateTime next = std::min(target, wall_or_next_cycle);", "replace": "const DateTime next = wall_or_next_cycle;"}]},
     {"id": "a-target-ignores-end", "expect": "C17.a", "edits": [{"file": EXEC, "find": "const DateTime target     = std::min(next_scheduled_time, state.end_time);", "replace": "const DateTime target     = next_scheduled_time;"}]},
